@@ -412,8 +412,98 @@ pub fn gen(tier: &str, seed: u64, outdir: &str) {
             cs.push(app("CCmpM", vec![Tm::Nat(r1 as u64), Tm::Nat(r2 as u64), fl(&x), fl(&y), Tm::F(tol), outcome_list(&res)]), &format!("compare/matrix/mode{}", mode), r1 != r2 || mode != 0);
         }
     }
+    // 6. coverage audit: the same widened points as the oracle's audit section, against the model
+    //    a. programs with concatenation / repetition of matrices up to 64 elements, special values, requests at the edge of i32, first / last indices
+    let nprog_a = if thorough { 800 } else { 60 };
+    for p in 0..nprog_a {
+        let (mut d, nr, nc) = start_matrix(&mut r, 8);
+        if p % 3 == 0 { for x in d.iter_mut() { if r.coin(0.3) { *x = special(&mut r); } } }
+        let (a, b) = match p % 4 { 0 => (-1, nc as i32), 1 => (nr as i32, -1), _ => (nr as i32, nc as i32) };
+        let len = 1 + r.below(40) as usize;
+        let mut m = Matrix::new(d.clone(), a, b);
+        let mut trace = state_vec(&m);
+        let mut ops = vec![]; let mut panicked = false; let mut changes = 0;
+        for _ in 0..len {
+            let op = draw_op_audit(&mut r, m.nrows, m.ncols, true);
+            ops.push(op.term());
+            let res = catch(|| { let mut mm = m.clone(); let out = op.run(&mut mm); (mm, out) });
+            match res {
+                Ok((mm, out)) => { if op.changes_state() { changes += 1; } m = mm; trace.extend(state_vec(&m)); trace.extend(out); }
+                Err(_) => { panicked = true; break; }
+            }
+        }
+        cs.push(app("CProg", vec![fl(&d), Tm::Z(a as i64), Tm::Z(b as i64), Tm::L(ops), fl(&trace), Tm::B(panicked)]),
+                if panicked { "program-wide/ends-in-panic" } else { "program-wide/completes" }, changes >= 2);
+    }
+    //    b. Matrix::new with dimensions whose product is the length only modulo 2^32, and at the edge of i32
+    for len in 1..=(if thorough { 64usize } else { 24 }) {
+        let d: Vec<f64> = (0..len).map(|_| r.small_int(9)).collect();
+        let mut shapes = vec![(i32::MAX, i32::MAX), (i32::MIN, 1), (1, i32::MIN), (65536, 65536)];
+        for skip in 0..2 { if let Some(s) = wrapping_shape(len, skip) { shapes.push(s); shapes.push((s.1, s.0)); } }
+        for (a, b) in shapes {
+            let res = catch(|| state_vec(&Matrix::new(d.clone(), a, b)));
+            cs.push(app("CNew", vec![fl(&d), Tm::Z(a as i64), Tm::Z(b as i64), outcome_list(&res)]), if res.is_ok() { "new-edge/value" } else { "new-edge/panic" }, true);
+        }
+    }
+    //    c. constructors at the largest stated size
+    for (n, k) in [(64usize, 64usize), (33, 33), (64, 0), (1, 64)] {
+        let a: Vec<f64> = (0..n).map(|_| if k > 40 { r.small_int(2) } else { r.uniform(-2.0, 2.0) }).collect();
+        let res = catch(|| vandermonde(&a, k));
+        cs.push(app("CVandermonde", vec![fl(&a), Tm::Nat(k as u64), outcome_list(&res)]), "vandermonde", true);
+    }
+    for (nr, nc) in [(64usize, 64usize), (1, 64), (64, 1), (33, 17)] {
+        let res = catch(|| state_vec(&Matrix::zeros(nr, nc)));
+        cs.push(app("CZeros", vec![Tm::Nat(nr as u64), Tm::Nat(nc as u64), outcome_list(&res)]), "zeros", true);
+        let res = catch(|| state_vec(&Matrix::ones(nr, nc)));
+        cs.push(app("COnes", vec![Tm::Nat(nr as u64), Tm::Nat(nc as u64), outcome_list(&res)]), "ones", true);
+        let x: Vec<f64> = (0..nr * nc).map(|_| r.small_int(9)).collect();
+        let res = catch(|| design(&x, nr));
+        cs.push(app("CDesign", vec![fl(&x), Tm::Nat(nr as u64), outcome_list(&res)]), "design", true);
+    }
+    //    d. grids at other magnitudes, ratios next to an integer, a step pointing away from stop; rotations at the multiples of pi/4 and the end points of +-4 pi
+    let ngrid_a = if thorough { 600 } else { 60 };
+    for it in 0..ngrid_a {
+        let n = 1 + (it * 7) % 64;
+        let sc = *r.pick(&[1e-3, 1e3, 1e6, 1e12, 1e100, 1e150]);
+        let (a, b) = match it % 4 { 0 => { let a = r.uniform(-1.0, 1.0) * sc; (a, a) } 1 => (sc, -sc), _ => (r.uniform(-1.0, 1.0) * sc, r.uniform(-1.0, 1.0) * sc) };
+        let res = catch(|| linspace(a, b, n).v);
+        cs.push(app("CLinspace", vec![Tm::F(a), Tm::F(b), Tm::Nat(n as u64), outcome_list(&res)]), "linspace", n >= 2);
+        let (start, step) = if it % 2 == 0 { (r.uniform(-10.0, 10.0), r.uniform(0.05, 2.0)) } else { (r.small_int(40) * 1048576.0, (1.0 + r.below(16) as f64) / 8.0) };
+        let step = if it % 3 == 0 { -step } else { step };
+        let q = r.below(65) as f64; let frac = *r.pick(&[0.0, 1e-6, 1e-3, 0.999, 1.0 - 1e-6, -0.5, -3.0]);
+        let stop = start + step * (if frac < 0.0 { frac } else { q + frac });
+        crate::libm::start();
+        let res = catch(|| arange(start, stop, step).v);
+        let t = crate::libm::stop();
+        cs.push(app("CArange", vec![libm_table(&t), Tm::F(start), Tm::F(stop), Tm::F(step), outcome_list(&res)]), "arange", res.as_ref().map(|v| v.len() >= 2).unwrap_or(false));
+    }
+    let pi = std::f64::consts::PI;
+    let mut angles = vec![4.0 * pi, -4.0 * pi, f64::from_bits((4.0 * pi).to_bits() - 1), 5e-324, -1e-17];
+    for k in -8i32..=8 { angles.push(k as f64 * pi / 4.0); }
+    for (it, &ang) in angles.iter().enumerate() { for ax in 0..3u64 {
+        let cw = (it + ax as usize) % 2 == 0;
+        crate::libm::start();
+        let res = catch(|| state_vec(&if cw { rotation_matrix_cw(ang, axis(ax)) } else { rotation_matrix_ccw(ang, axis(ax)) }));
+        let t = crate::libm::stop();
+        cs.push(app("CRot", vec![libm_table(&t), Tm::B(cw), Tm::Nat(ax), Tm::F(ang), outcome_list(&res)]), if cw { "rotation/cw" } else { "rotation/ccw" }, ang != 0.0);
+    }}
+    //    e. comparisons: infinite entries facing their negation, tolerances up to 2, zeros and subnormals
+    let ncmp_a = if thorough { 1500 } else { 150 };
+    for it in 0..ncmp_a {
+        let n = 1 + r.below(4) as usize;
+        let tol = *r.pick(&[1e-10, 0.5, 1.0, 1.5, 1.999, 2.0, 2.5, f64::INFINITY]);
+        let x: Vec<f64> = (0..n).map(|_| match r.below(8) { 0 => f64::INFINITY, 1 => f64::NEG_INFINITY, 2 => 0.0, 3 => 5e-324, 4 => 1.7976931348623157e308, 5 => -1.7976931348623157e308, _ => r.uniform(-4.0, 4.0) * *r.pick(&[1e-300, 1.0, 1e300]) }).collect();
+        let y: Vec<f64> = match it % 3 { 0 => x.iter().map(|v| -v).collect(), 1 => x.clone(), _ => x.iter().map(|v| if v.is_infinite() && r.coin(0.5) { 1.0 } else { v * (1.0 + 0.9 * tol.min(4.0) * r.uniform(-1.2, 1.2)) }).collect() };
+        let (vx, vy) = (Vector::new(x.clone()), Vector::new(y.clone()));
+        let res = catch(|| vec![vx.close_to(&vy, tol) as u8 as f64, (vx == vy) as u8 as f64]);
+        cs.push(app("CCmpV", vec![fl(&x), fl(&y), Tm::F(tol), outcome_list(&res)]), &format!("compare/vector-audit/mode{}", it % 3), true);
+        let ds = divisors(n); let (r1, r2) = (*r.pick(&ds), *r.pick(&ds));
+        let (mx, my) = (Matrix::new(x.clone(), r1 as i32, -1), Matrix::new(y.clone(), r2 as i32, -1));
+        let res = catch(|| vec![mx.close_to(&my, tol) as u8 as f64, (mx == my) as u8 as f64]);
+        cs.push(app("CCmpM", vec![Tm::Nat(r1 as u64), Tm::Nat(r2 as u64), fl(&x), fl(&y), Tm::F(tol), outcome_list(&res)]), &format!("compare/matrix-audit/mode{}", it % 3), true);
+    }
     cs.write(outdir, 60,
-             "lock-step programs of 1..40 structural operations (22 kinds, ~6% malformed arguments, inferred and explicit dimensions) over 1..8 x 1..8 start matrices, the whole state compared after every step; Matrix::new on arbitrary lengths/dimensions; eye/diag_matrix/toeplitz/vandermonde over sizes 0..64, zeros/ones/design over all small shapes, linspace sizes 0..64, arange with integer and non-integer ratios and both step signs, rotations about all three axes for angles in +-4pi and special values (libm table recorded); slice utilities on arbitrary lengths; predicates over all shapes 1..8 x 1..8 (triangular/symmetric/perturbed/NaN), vector and matrix comparisons (equal, negated, perturbed, zeros, different lengths/shapes). Non-trivial: a program with >= 2 state-changing steps; a constructor of size >= 2; a predicate on a non-square or structured matrix; a comparison of non-identical operands; distinct by hash of the case term");
+             "lock-step programs of 1..40 structural operations (22 kinds, ~6% malformed arguments, inferred and explicit dimensions) over 1..8 x 1..8 start matrices, the whole state compared after every step; Matrix::new on arbitrary lengths/dimensions; eye/diag_matrix/toeplitz/vandermonde over sizes 0..64, zeros/ones/design over all small shapes, linspace sizes 0..64, arange with integer and non-integer ratios and both step signs, rotations about all three axes for angles in +-4pi and special values (libm table recorded); slice utilities on arbitrary lengths; predicates over all shapes 1..8 x 1..8 (triangular/symmetric/perturbed/NaN), vector and matrix comparisons (equal, negated, perturbed, zeros, different lengths/shapes); audit section: programs with concatenation / repetition of matrices up to 64 elements (operands 1..8, 1..4 copies), NaN / inf / -0 / subnormal / largest finite elements, requests at the edge of i32 and products equal to the size only modulo 2^32 (also through Matrix::new), first / last indices; vandermonde 64 x 64, zeros / ones / design 64 x 64; grids at magnitudes 1e-3..1e150, arange ratios within 1e-6 of an integer, steps pointing away from stop, up to 65 points; rotations at the multiples of pi/4 and at +-4 pi; comparisons with infinite entries, tolerances up to 2 and beyond. Non-trivial: a program with >= 2 state-changing steps; a constructor of size >= 2; a predicate on a non-square or structured matrix; a comparison of non-identical operands; distinct by hash of the case term");
 }
 
 // ---------------------------------------------------------------------------------------------
@@ -632,5 +722,339 @@ pub fn oracle(tier: &str, seed: u64) -> (u64, Vec<Finding>) {
         }
         if out.len() > 200 { break; }
     }
+    // ---- coverage audit: the ranges the quantifier names that the searches above stop short of (own generator: the points above are unchanged)
+    tried += oracle_audit(thorough, seed, &mut out);
     (tried, out)
+}
+
+// ---------------------------------------------------------------------------------------------
+// coverage audit (added after the C02 far-tail lesson): evaluation points only, same demands
+/// positive i32 dimensions (r, c) whose product is `size` modulo 2^32 but not `size`: an impossible shape whatever the integer width
+fn wrapping_shape(size: usize, skip: u64) -> Option<(i32, i32)> {
+    let mut seen = 0;
+    for r in 3u64..20000 { for k in 1..=(r / 2) {
+        let t = size as u64 + (k << 32);
+        if t % r == 0 { let c = t / r; if c < (1u64 << 31) && c > 0 { if seen == skip { return Some((r as i32, c as i32)); } seen += 1; } }
+    }}
+    None
+}
+fn special(r: &mut Rng) -> f64 { *r.pick(&[f64::NAN, f64::INFINITY, f64::NEG_INFINITY, -0.0, 0.0, 5e-324, -5e-324, 2.2250738585072014e-308, 1.7976931348623157e308, -1.7976931348623157e308, 1e-300, 1e300]) }
+
+/// the audit's operation draw: concatenation / repetition of matrices up to 64 elements with operands 1..8 wide / high and 1..4 copies, special values,
+/// impossible requests at the edge of i32 (incl. products that are the size only modulo 2^32), first / last index of every accessor; otherwise `draw_op`
+fn draw_op_audit(r: &mut Rng, cr: usize, cc: usize, for_model: bool) -> Op {
+    let size = cr * cc;
+    match r.below(16) {
+                0 if size <= 64 => { let oc = 1 + r.below(8) as usize; let dd: Vec<f64> = (0..cr * oc).map(|_| if r.coin(0.1) { special(r) } else { r.small_int(99) }).collect();
+                                     let (x, y) = match r.below(3) { 0 => (cr as i32, oc as i32), 1 => (-1, oc as i32), _ => (cr as i32, -1) }; Op::Hcat(dd, x, y) }
+                1 if size <= 64 => { let orr = 1 + r.below(8) as usize; let dd: Vec<f64> = (0..orr * cc).map(|_| if r.coin(0.1) { special(r) } else { r.small_int(99) }).collect();
+                                     let (x, y) = match r.below(3) { 0 => (orr as i32, cc as i32), 1 => (-1, cc as i32), _ => (orr as i32, -1) }; Op::Vcat(dd, x, y) }
+                2 if size <= 64 => Op::Hrepeat(1 + r.below(4) as usize),
+                3 if size <= 64 => Op::Vrepeat(1 + r.below(4) as usize),
+                4 => Op::FlatSet(r.below(size as u64) as usize, special(r)),
+                5 => Op::IdxSet(r.below(cr as u64) as usize, r.below(cc as u64) as usize, special(r)),
+                6 => { // impossible requests at the edge of the integer type and with a zero / negative dimension
+                       let big = [(0, 0), (-1, 0), (0, -1), (size as i32, 0), (0, 1), (i32::MIN, 1), (1, i32::MIN), (i32::MAX, i32::MAX), (i32::MAX, 1), (-1, i32::MAX), (i32::MAX, -1), (65536, 65536), (-1, i32::MIN), (i32::MIN, i32::MIN)];
+                       let (mut x, mut y) = if r.coin(0.5) { wrapping_shape(size, r.below(3)).unwrap_or((0, 0)) } else { *r.pick(&big) };
+                       // the Gallina model infers a dimension in unary `nat`: a divisor of 2^31 is left to the oracle
+                       if for_model && ((x == -1 && y == i32::MAX) || (x == i32::MAX && y == -1)) { x = 0; y = 0; }
+                       match r.below(3) { 0 => Op::Reshape(x, y), 1 => Op::ReshapeMut(x, y), _ => Op::ToVecReshape(x, y) } }
+                7 => { // first / last index of every accessor
+                       let (i, j) = (if r.coin(0.5) { 0 } else { cr - 1 }, if r.coin(0.5) { 0 } else { cc - 1 });
+                       match r.below(8) { 0 => Op::GetRow(i), 1 => Op::GetCol(j), 2 => Op::ApplyRow(i, r.below(3) as u8), 3 => Op::ApplyCol(j, r.below(3) as u8), 4 => Op::FlatIdx(if r.coin(0.5) { 0 } else { size - 1 }),
+                                          5 => Op::Idx(i, j), 6 => Op::RowSlice(i), _ => Op::IdxSet(i, j, r.small_int(99)) } }
+                _ => draw_op(r, cr, cc, size <= 24),
+    }
+}
+
+fn oracle_audit(thorough: bool, seed: u64, out: &mut Vec<Finding>) -> u64 {
+    let mut r = Rng::new(seed ^ 0xA0D1_7C15);
+    let mut tried = 0u64;
+    let same = |x: &[f64], y: &[f64]| x.len() == y.len() && x.iter().zip(y).all(|(a, b)| a.to_bits() == b.to_bits());
+    // ---- A. programs: concatenation / repetition of matrices up to 8x8 = 64 elements (above: only up to 24), operands 1..8 wide / high, 1..4 copies,
+    //         special values among the elements (NaN, +-inf, -0, subnormal, largest finite), shape requests at the edge of i32, the observers shape() / size() /
+    //         row iteration after every step
+    let nprog = if thorough { 12000 } else { 1500 };
+    let base = out.len();
+    'prog: for p in 0..nprog {
+        let (mut d, nr, nc) = start_matrix(&mut r, 8);
+        if p % 3 == 0 { for x in d.iter_mut() { if r.coin(0.3) { *x = special(&mut r); } } }
+        let (a, b) = match p % 4 { 0 => (-1, nc as i32), 1 => (nr as i32, -1), _ => (nr as i32, nc as i32) };
+        let mut m = Matrix::new(d.clone(), a, b);
+        let mut rf = rows_of(&d, nr, nc);
+        let len = 1 + r.below(40) as usize;
+        let mut hist = format!("Matrix::new({}, {}, {})", json_floats(&d), a, b);
+        for _ in 0..len {
+            let op = draw_op_audit(&mut r, rf.len(), rf[0].len(), false);
+            hist.push_str(&format!(" ; {:?}", op));
+            let want = ref_op(&rf, &op);
+            crumb(&hist);
+            let got = catch(|| { let mut mm = m.clone(); let o = op.run(&mut mm); (mm, o) });
+            tried += 1;
+            match (want, got) {
+                (None, Err(_)) => continue 'prog,
+                (None, Ok((mm, _))) => { push(out, &format!("program:impossible-request-accepted op={}", op.name()),
+                    format!("{} must panic on a {}x{} matrix but returned; state is now nrows={} ncols={} len={}", op.name(), rf.len(), rf[0].len(), mm.nrows, mm.ncols, mm.data.len()), hist.clone()); continue 'prog; }
+                (Some(_), Err(e)) => { push(out, &format!("program:valid-operation-panics op={}", op.name()), format!("{} panicked ({}) on a {}x{} matrix", op.name(), e, rf.len(), rf[0].len()), hist.clone()); continue 'prog; }
+                (Some((nrf, wout)), Ok((mm, gout))) => {
+                    if mm.nrows * mm.ncols != mm.data.len() { push(out, &format!("program:invariant-broken op={}", op.name()), format!("nrows*ncols = {}*{} != len {}", mm.nrows, mm.ncols, mm.data.len()), hist.clone()); continue 'prog; }
+                    if mm.nrows != nrf.len() || mm.ncols != nrf[0].len() || !same(&mm.data, &flat(&nrf)) {
+                        push(out, &format!("program:wrong-elements op={}", op.name()), format!("after {}: implementation {}x{} {:?}, reference {}x{} {:?}", op.name(), mm.nrows, mm.ncols, mm.data.v, nrf.len(), nrf[0].len(), flat(&nrf)), hist.clone()); continue 'prog; }
+                    if !same(&gout, &wout) { push(out, &format!("program:wrong-output op={}", op.name()), format!("{} returned {:?}, reference {:?}", op.name(), gout, wout), hist.clone()); continue 'prog; }
+                    // the public observers of the state
+                    tried += 1;
+                    let rows_it: Vec<Vec<f64>> = (&mm).into_iter().map(|x| x.to_vec()).collect();
+                    let rows_ok = rows_it.len() == nrf.len() && rows_it.iter().zip(&nrf).all(|(x, y)| same(x, y));
+                    if mm.shape() != [nrf.len(), nrf[0].len()] || mm.size() != mm.data.len() || !same(&mm.data().v, &flat(&nrf)) || !rows_ok {
+                        push(out, "program:wrong-output op=shape/size/data/rows", format!("shape() {:?} size() {} rows {:?}; reference {}x{}", mm.shape(), mm.size(), rows_it, nrf.len(), nrf[0].len()), hist.clone()); continue 'prog; }
+                    m = mm; rf = nrf;
+                }
+            }
+        }
+        if out.len() > base + 60 { break; }
+    }
+    // Matrix::new / Vector::reshape themselves with a product that is the length only modulo 2^32
+    for len in 1..=64usize { for skip in 0..2 {
+        if let Some((x, y)) = wrapping_shape(len, skip) {
+            let d: Vec<f64> = (0..len).map(|i| i as f64).collect();
+            for form in 0..2 {
+                let inp = format!("{}({:?}, {}, {})", if form == 0 { "Matrix::new" } else { "Vector::reshape" }, d, x, y);
+                crumb(&inp); tried += 1;
+                let got = catch(|| if form == 0 { Matrix::new(d.clone(), x, y) } else { Vector::new(d.clone()).reshape(x, y) });
+                if let Ok(mm) = got { push(out, &format!("program:impossible-request-accepted op={}", if form == 0 { "new" } else { "to_vec.reshape" }),
+                    format!("{} elements cannot have the shape {}x{} (the product is {} only modulo 2^32) but the request returned nrows={} ncols={} len={}", len, x, y, len, mm.nrows, mm.ncols, mm.data.len()), inp); }
+            }
+        }
+    }}
+    // ---- B. constructors at the full stated sizes
+    for n in 1..=64usize {
+        // vandermonde: every length 1..64 (above: at most 20) and every order 0..64 (above: 1..12); powers of 0, +-1, +-2 are exact at every order, of +-3 up to 3^33
+        for (lim, kmax) in [(2i64, 64u64), (3, 33)] {
+            let k = if n % 7 == 0 { kmax as usize } else { r.below(kmax + 1) as usize };
+            let x: Vec<f64> = (0..n).map(|_| r.small_int(lim)).collect();
+            tried += 1;
+            crumb(&format!("vandermonde({}, {})", json_floats(&x), k));
+            match catch(|| vandermonde(&x, k)) { Ok(v) => { let mut ok = v.len() == x.len() * k; if ok { for i in 0..x.len() { let mut pw = 1.0; for j in 0..k { if v[i * k + j] != pw { ok = false; } pw *= x[i]; } } }
+                if !ok { push(out, "vandermonde:wrong", format!("entry (i,j) != x_i^j, order {}", k), json_floats(&x)); } } Err(e) => push(out, "vandermonde:panics", e, json_floats(&x)) }
+        }
+        // zeros / ones: both dimensions up to 64 (above: columns up to 8)
+        let (nr, nc) = if n == 64 { (64, 64) } else if n == 63 { (1, 64) } else { (1 + r.below(64) as usize, 1 + r.below(64) as usize) };
+        tried += 3;
+        crumb(&format!("zeros/ones/with_shape({}, {})", nr, nc));
+        for (name, val) in [("zeros", 0.0), ("ones", 1.0)] {
+            match catch(|| if val == 0.0 { Matrix::zeros(nr, nc) } else { Matrix::ones(nr, nc) }) { Ok(m) => if !(m.nrows == nr && m.ncols == nc && m.data.len() == nr * nc && m.data.iter().all(|x| *x == val)) { push(out, &format!("{}:wrong", name), "wrong shape or fill".into(), format!("{}x{}", nr, nc)); } Err(e) => push(out, &format!("{}:panics", name), e, format!("{}x{}", nr, nc)) }
+        }
+        // with_shape: the shape and the element count (the contents are unspecified and not read)
+        match catch(|| { let m = Matrix::with_shape(nr, nc); (m.nrows, m.ncols, m.data.len()) }) { Ok(g) => if g != (nr, nc, nr * nc) { push(out, "with_shape:wrong", format!("nrows, ncols, len = {:?}", g), format!("{}x{}", nr, nc)); } Err(e) => push(out, "with_shape:panics", e, format!("{}x{}", nr, nc)) }
+        // with_capacity ("an empty matrix with a certain capacity"): no elements, element count = rows x columns, room for nr x nc elements
+        tried += 1;
+        crumb(&format!("Matrix::with_capacity({}, {})", nr, nc));
+        match catch(|| { let m = Matrix::with_capacity(nr, nc); (m.nrows, m.ncols, m.data.len(), m.data.v.capacity()) }) {
+            Ok((a, b, l, cap)) => if a * b != l || l != 0 || cap < nr * nc { push(out, "with_capacity:wrong", format!("nrows, ncols, len, capacity = {:?}; want an empty matrix (nrows*ncols = len = 0) with capacity >= {}", (a, b, l, cap), nr * nc), format!("Matrix::with_capacity({}, {})", nr, nc)); }
+            Err(e) => push(out, "with_capacity:panics", format!("panicked ({}); the documented result is an empty matrix with capacity {}", e, nr * nc), format!("Matrix::with_capacity({}, {})", nr, nc)) }
+        // design: up to 64 rows and 64 columns (above: 12 x 4)
+        let (nr, nc) = if n == 64 { (64, 64) } else { (1 + r.below(64) as usize, 1 + r.below(if n % 2 == 0 { 64 } else { 8 }) as usize) };
+        let mut x: Vec<f64> = (0..nr * nc).map(|_| r.small_int(50)).collect();
+        if r.coin(0.35) { for i in 0..nr { x[i * nc] = 1.0; } }
+        tried += 1;
+        crumb(&format!("design(x={}, rows={})", json_floats(&x), nr));
+        match catch(|| design(&x, nr)) { Ok(v) => { let w = nc + 1; let ok = v.len() == nr * w && (0..nr).all(|i| v[i * w] == 1.0 && (0..nc).all(|j| v[i * w + 1 + j] == x[i * nc + j]));
+            if !ok { push(out, "design:not-ones-column-then-x", format!("design of a {}x{} row-major matrix: want each row = 1 followed by the row of x", nr, nc), format!("x={} rows={}", json_floats(&x), nr)); }
+            else if !is_design(&v, nr) { push(out, "design:is_design-false", "is_design(design(x)) is false".into(), json_floats(&x)); } }
+            Err(e) => push(out, "design:panics", e, format!("x={} rows={}", json_floats(&x), nr)) }
+    }
+    // ---- C. grids beyond +-50: magnitudes 1e-3 .. 1e150, coinciding end points; arange up to 64 points (above: 60), ratios within 1e-6 of an integer,
+    //         start far from 0 relative to the step, a step pointing away from stop and stop = start (the half-open grid is empty)
+    let ngrid = if thorough { 20000 } else { 3000 };
+    let base = out.len();
+    for it in 0..ngrid {
+        let n = 1 + (it % 64);
+        let sc = *r.pick(&[1e-3, 1.0, 1e3, 1e6, 1e12, 1e100, 1e150]);
+        let (a, b) = match it % 6 { 0 => { let a = r.uniform(-1.0, 1.0) * sc; (a, a) } 1 => (sc, -sc), 2 => (r.uniform(-1.0, 1.0) * sc, r.uniform(-1.0, 1.0)), _ => (r.uniform(-1.0, 1.0) * sc, r.uniform(-1.0, 1.0) * sc) };
+        tried += 1;
+        let inp = format!("linspace({:e}, {:e}, {})", a, b, n);
+        crumb(&inp);
+        match catch(|| linspace(a, b, n).v) {
+            Ok(v) => {
+                let scale = 1e-12 * (a.abs() + b.abs() + 1.0);
+                if v.len() != n { push(out, "linspace:wrong-count", format!("{} points", v.len()), inp); }
+                else if n == 1 { if !(v[0] == a) { push(out, "linspace:single-point-not-start", format!("returned {:?}; a one-point grid is [start]", v), inp); } }
+                else if v[0] != a || (v[n - 1] - b).abs() > scale { push(out, "linspace:endpoints", format!("first {:e}, last {:e}", v[0], v[n - 1]), inp); }
+                else if !(0..n).all(|i| (v[i] - (a + (b - a) * i as f64 / (n - 1) as f64)).abs() <= scale) { push(out, "linspace:spacing", "points are not evenly spaced".into(), inp); }
+            }
+            Err(e) => push(out, "linspace:panics", e, inp),
+        }
+        // arange
+        let kind = it % 5;
+        let neg = it % 3 == 0;
+        let (start, step, q, frac) = match kind {
+            // dyadic, all counts 0..64
+            0 => { let frac = *r.pick(&[0.0, 0.125, 0.5, 0.875]); let q = r.below(if frac > 0.0 { 64 } else { 65 }) as f64; (r.small_int(40) / 8.0, (1.0 + r.below(16) as f64) / 8.0, q, frac) }
+            // non-dyadic, ratio close to (not at) an integer
+            1 => (r.uniform(-10.0, 10.0), r.uniform(0.05, 2.0), r.below(64) as f64, *r.pick(&[1e-6, 1e-3, 0.01, 0.99, 0.999, 1.0 - 1e-6])),
+            // start far from 0 relative to the step (dyadic, so that the ratio is exact)
+            2 => { let frac = *r.pick(&[0.0, 0.25, 0.5, 0.75]); (r.small_int(40) * *r.pick(&[1024.0, 1048576.0, 1073741824.0]), (1.0 + r.below(16) as f64) / *r.pick(&[8.0, 1024.0]), r.below(if frac > 0.0 { 64 } else { 65 }) as f64, frac) }
+            // a step pointing away from stop, or stop = start: no point
+            3 => (r.uniform(-10.0, 10.0), r.uniform(0.05, 2.0), -(r.below(40) as f64), if it % 2 == 0 { 0.0 } else { -0.5 }),
+            // large steps
+            _ => { let frac = *r.pick(&[0.0, 0.5]); (r.small_int(40), (1.0 + r.below(16) as f64) * *r.pick(&[1024.0, 1048576.0]), r.below(if frac > 0.0 { 64 } else { 65 }) as f64, frac) }
+        };
+        let step = if neg { -step } else { step };
+        let stop = start + step * (q + frac);
+        let want = if q + frac <= 0.0 { 0 } else { q as usize + if frac > 0.0 { 1 } else { 0 } };
+        tried += 1;
+        let inp = format!("arange({:e}, {:e}, {:e})", start, stop, step);
+        crumb(&inp);
+        match catch(|| arange(start, stop, step).v) {
+            Ok(v) => {
+                let scale = 1e-12 * (start.abs() + stop.abs() + 1.0);
+                if v.len() != want { push(out, if v.len() + 1 == want { "arange:drops-last-grid-point" } else { "arange:wrong-count" }, format!("{} points; (stop-start)/step = {} so the half-open grid has {} points", v.len(), q + frac, want), inp); }
+                else if !(0..want).all(|i| (v[i] - (start + i as f64 * step)).abs() <= scale && (if neg { v[i] > stop } else { v[i] < stop })) { push(out, "arange:wrong-points", "a point is off the grid or not inside [start, stop)".into(), inp); }
+            }
+            Err(e) => push(out, "arange:panics", e, inp),
+        }
+        if out.len() > base + 60 { break; }
+    }
+    // rotations at the end points of +-4pi and at the multiples of pi/2 (above: uniform draws only)
+    let pi = std::f64::consts::PI;
+    let mut angles = vec![0.0, -0.0, 4.0 * pi, -4.0 * pi, f64::from_bits((4.0 * pi).to_bits() - 1), -f64::from_bits((4.0 * pi).to_bits() - 1), 5e-324, 1e-300, 1e-17, -1e-17];
+    for k in -8i32..=8 { angles.push(k as f64 * pi / 2.0); angles.push(k as f64 * pi / 4.0); angles.push(k as f64 * pi / 6.0); }
+    for &ang in &angles { for ax in 0..3u64 {
+        tried += 1;
+        let inp = format!("angle={:e} axis={}", ang, ["X", "Y", "Z"][ax as usize]);
+        crumb(&format!("rotation_matrix_cw/ccw {}", inp));
+        match catch(|| (rotation_matrix_cw(ang, axis(ax)), rotation_matrix_ccw(ang, axis(ax)))) {
+            Ok((cw, ccw)) => {
+                for (nm, m) in [("cw", &cw), ("ccw", &ccw)] {
+                    if m.nrows != 3 || m.ncols != 3 || m.data.len() != 9 { push(out, "rotation:shape", format!("{} not 3x3", nm), inp.clone()); continue; }
+                    let g = |i: usize, j: usize| m.data[i * 3 + j];
+                    let mut orth = true;
+                    for i in 0..3 { for j in 0..3 { let s: f64 = (0..3).map(|k| g(k, i) * g(k, j)).sum(); if (s - if i == j { 1.0 } else { 0.0 }).abs() > 1e-12 { orth = false; } } }
+                    let det = g(0, 0) * (g(1, 1) * g(2, 2) - g(1, 2) * g(2, 1)) - g(0, 1) * (g(1, 0) * g(2, 2) - g(1, 2) * g(2, 0)) + g(0, 2) * (g(1, 0) * g(2, 1) - g(1, 1) * g(2, 0));
+                    if !orth { push(out, "rotation:not-orthogonal", format!("{}: R^T R != I", nm), inp.clone()); }
+                    if (det - 1.0).abs() > 1e-12 { push(out, "rotation:determinant", format!("{}: det = {:e}", nm, det), inp.clone()); }
+                }
+                if cw.data.len() == 9 && ccw.data.len() == 9 && !(0..3).all(|i| (0..3).all(|j| cw.data[i * 3 + j] == ccw.data[j * 3 + i])) { push(out, "rotation:cw-not-ccw-transposed", "cw != ccw^T".into(), inp.clone()); }
+                if ccw.data.len() == 9 {
+                    let (c, sn) = (ang.cos(), ang.sin());
+                    let want: [f64; 9] = match ax { 0 => [1.0, 0.0, 0.0, 0.0, c, -sn, 0.0, sn, c], 1 => [c, 0.0, sn, 0.0, 1.0, 0.0, -sn, 0.0, c], _ => [c, -sn, 0.0, sn, c, 0.0, 0.0, 0.0, 1.0] };
+                    if let Some(k) = (0..9).find(|&k| (ccw.data[k] - want[k]).abs() > 1e-12) {
+                        push(out, "rotation:not-the-defining-pattern", format!("counter-clockwise rotation: entry ({},{}) = {:e}, the right-handed rotation about this axis has {:e}", k / 3, k % 3, ccw.data[k], want[k]), inp.clone());
+                    }
+                }
+            }
+            Err(e) => push(out, "rotation:panics", e, inp),
+        }
+    }}
+    // ---- D. predicates: entries at every scale and of both signs, mirrored entries 1..4 ulp apart (the tolerance of is_symmetric is relative), -0 and subnormal
+    //         entries in the triangle that must vanish, a first column of ones (exact, 1 +- eps, 1 + 2 eps) for is_design; utils on square arrays up to 64 x 64
+    let npred = if thorough { 30000 } else { 4000 };
+    let base = out.len();
+    for it in 0..npred {
+        let (nr, nc) = (1 + r.below(8) as usize, 1 + r.below(8) as usize);
+        let sc = *r.pick(&[1e-300, 1e-150, 1e-17, 1.0, 1.0, 1e17, 1e150, 1e300]);
+        let mut d: Vec<f64> = (0..nr * nc).map(|_| { let v = r.uniform(0.5, 2.0) * sc; if r.coin(0.5) { v } else { -v } }).collect();
+        let kind = it % 5;
+        for i in 0..nr { for j in 0..nc {
+            if kind == 1 && j < i { d[i * nc + j] = if r.coin(0.97) { if r.coin(0.5) { -0.0 } else { 0.0 } } else { *r.pick(&[5e-324, -5e-324]) }; }
+            if kind == 2 && j > i { d[i * nc + j] = if r.coin(0.97) { if r.coin(0.5) { -0.0 } else { 0.0 } } else { *r.pick(&[5e-324, -5e-324]) }; }
+            if kind == 3 && nr == nc && j < i { let v = d[j * nc + i]; let u = *r.pick(&[0i64, 0, 0, 0, 0, 0, 0, 0, 0, 0, 0, 1, -1, 2, -2, 3, 4]); d[i * nc + j] = f64::from_bits((v.to_bits() as i64 + u) as u64); }
+            if kind == 4 && j == 0 { d[i * nc] = *r.pick(&[1.0, 1.0, 1.0, 1.0, 1.0, 1.0, 1.0 + f64::EPSILON, 1.0 - f64::EPSILON, 1.0 - f64::EPSILON / 2.0, 1.0 + 2.0 * f64::EPSILON, -1.0]); }
+        }}
+        let m = Matrix::new(d.clone(), nr as i32, nc as i32);
+        let e = |i: usize, j: usize| d[i * nc + j];
+        let inp = format!("{}x{} {}", nr, nc, json_floats(&d));
+        crumb(&format!("predicates / slice utilities on {}", inp));
+        tried += 4;
+        let up = (0..nr).all(|i| (0..nc).all(|j| j >= i || e(i, j) == 0.0));
+        let lo = (0..nr).all(|i| (0..nc).all(|j| j <= i || e(i, j) == 0.0));
+        let sym = nr == nc && (0..nr).all(|i| (0..nc).all(|j| (e(i, j) - e(j, i)).abs() <= f64::EPSILON * e(i, j).abs().max(e(j, i).abs())));
+        for (name, want, got) in [("is_upper_triangular", up, catch(|| m.is_upper_triangular())), ("is_lower_triangular", lo, catch(|| m.is_lower_triangular())),
+                                  ("is_symmetric", sym, catch(|| m.is_symmetric())), ("is_square", nr == nc, catch(|| m.is_square()))] {
+            match got { Ok(g) => if g != want { push(out, &format!("{}:wrong", name), format!("returned {}, definition gives {}", g, want), inp.clone()); }
+                        Err(er) => push(out, &format!("{}:panics", name), format!("panicked ({}) on a {}x{} matrix; definition gives {}", er, nr, nc, want), inp.clone()) }
+        }
+        tried += 1;
+        match catch(|| is_design(&d, nr)) { Ok(g) => { let w = (0..nr).all(|i| (e(i, 0) - 1.0).abs() <= f64::EPSILON); if g != w { push(out, "is_design:wrong", format!("returned {}, definition gives {}", g, w), inp.clone()); } } Err(er) => push(out, "is_design:panics", er, inp.clone()) }
+        if nr == nc { tried += 2;
+            match catch(|| diag(&d).v) { Ok(g) => if !same(&g, &(0..nr).map(|i| e(i, i)).collect::<Vec<_>>()) { push(out, "utils::diag:wrong", format!("{:?}", g), inp.clone()); } Err(er) => push(out, "utils::diag:panics", er, inp.clone()) }
+            match catch(|| is_symmetric(&d)) { Ok(g) => if g != sym { push(out, "utils::is_symmetric:wrong", format!("returned {}", g), inp.clone()); } Err(er) => push(out, "utils::is_symmetric:panics", er, inp.clone()) }
+        }
+        if out.len() > base + 60 { break; }
+    }
+    // utils::is_square on every length a constructor of size <= 64 produces (and a little beyond): 1..4300 (above: only lengths 1..64)
+    for len in 1..=4300usize {
+        let s = vec![0.0; len];
+        tried += 1;
+        crumb(&format!("utils::is_square(length {})", len));
+        match catch(|| is_square(&s)) { Ok(g) => { let w = (0..=66usize).find(|k| k * k == len); if g.clone().ok() != w { push(out, "utils::is_square:wrong", format!("returned {:?} for length {}", g, len), format!("length {}", len)); } } Err(er) => push(out, "utils::is_square:panics", er, format!("length {}", len)) }
+    }
+    // utils::diag / is_symmetric / transpose / layout conversion on arrays up to 64 x 64 (above: up to 8 x 8)
+    for n in 9..=64usize {
+        let mut s: Vec<f64> = (0..n * n).map(|_| r.small_int(9)).collect();
+        let symm = n % 2 == 0;
+        if symm { for i in 0..n { for j in 0..i { s[i * n + j] = s[j * n + i]; } } }
+        let unsym = n % 4 == 0;
+        if unsym { s[n] = s[1] + 1.0; }
+        let inp = format!("{}x{} {}", n, n, json_floats(&s));
+        crumb(&format!("slice utilities on {}", inp));
+        tried += 4;
+        match catch(|| diag(&s).v) { Ok(g) => if g != (0..n).map(|i| s[i * n + i]).collect::<Vec<_>>() { push(out, "utils::diag:wrong", format!("{:?}", g), inp.clone()); } Err(er) => push(out, "utils::diag:panics", er, inp.clone()) }
+        let sym = (0..n).all(|i| (0..n).all(|j| s[i * n + j] == s[j * n + i]));
+        match catch(|| is_symmetric(&s)) { Ok(g) => if g != sym { push(out, "utils::is_symmetric:wrong", format!("returned {}", g), inp.clone()); } Err(er) => push(out, "utils::is_symmetric:panics", er, inp.clone()) }
+        let nr = 1 + r.below(n as u64) as usize; let nc = n; let a = &s[..nr * nc];
+        let want: Vec<f64> = (0..nc).flat_map(|j| (0..nr).map(move |i| (i, j))).map(|(i, j)| a[i * nc + j]).collect();
+        match catch(|| transpose(a, nr)) { Ok(g) => if g != want { push(out, "program:wrong-elements op=utils::transpose", format!("transpose of a {}x{} array", nr, nc), inp.clone()); } Err(er) => push(out, "program:valid-operation-panics op=utils::transpose", er, inp.clone()) }
+        match catch(|| col_to_row_major(&row_to_col_major(a, nr).v, nr)) { Ok(g) => if g != a { push(out, "program:wrong-elements op=row_to_col_major", format!("col_to_row_major(row_to_col_major(a)) != a for a {}x{} array", nr, nc), inp.clone()); } Err(er) => push(out, "program:valid-operation-panics op=row_to_col_major", er, inp.clone()) }
+    }
+    // ---- E. comparisons: tolerances up to 2 (the sign clause is stated for every tol < 2; above: at most 0.5), zeros and subnormals among the entries,
+    //         infinite entries
+    let ncmp = if thorough { 30000 } else { 4000 };
+    let base = out.len();
+    for it in 0..ncmp {
+        let n = 1 + r.below(8) as usize;
+        let tol = *r.pick(&[1e-10, 1e-3, 0.5, 1.0, 1.5, 1.9, 1.999]);
+        let kind = it % 3;
+        // kind 0: finite normal values at every scale, some entries zero (at least one is not); kind 1: subnormal entries; kind 2: infinite entries
+        let mut x: Vec<f64> = (0..n).map(|_| { let sc = *r.pick(&[1e-300, 1e-100, 1e-17, 1e-3, 1.0, 1.0, 1e3, 1e100, 1e300]); let v = r.uniform(0.1, 4.0) * sc; if r.coin(0.5) { v } else { -v } }).collect();
+        match kind {
+            0 => for i in 1..n { if r.coin(0.3) { x[i] = if r.coin(0.5) { 0.0 } else { -0.0 }; } },
+            1 => { let i = r.below(n as u64) as usize; x[i] = *r.pick(&[5e-324, -5e-324, 1e-310, -1e-310, 2e-308]); }
+            _ => { let i = r.below(n as u64) as usize; if r.coin(0.5) { for v in x.iter_mut() { *v = 0.0; } } x[i] = if r.coin(0.5) { f64::INFINITY } else { f64::NEG_INFINITY }; }
+        }
+        let (vx, neg) = (Vector::new(x.clone()), Vector::new(x.iter().map(|v| -v).collect::<Vec<_>>()));
+        let mut longer = x.clone(); longer.push(1.0);
+        let inp = format!("x={} tol={:e}", json_floats(&x), tol);
+        crumb(&format!("close_to / == with {}", inp));
+        tried += 6;
+        let t = |name: &str, want: bool, got: Result<bool, String>, out: &mut Vec<Finding>, class: &str| match got {
+            Ok(g) => if g != want { push(out, class, format!("{} returned {}, definition gives {}", name, g, want), inp.clone()); }
+            Err(er) => push(out, &format!("{}:panics", name), er, inp.clone()) };
+        t("close_to(x, -x, tol)", false, catch(|| vx.close_to(&neg, tol)), out, "close_to:opposite-signs-equated");
+        t("close_to(x, x, tol)", true, catch(|| vx.close_to(&vx.clone(), tol)), out, "close_to:wrong");
+        t("close_to(x, x ++ [1], tol)", false, catch(|| vx.close_to(&Vector::new(longer.clone()), tol)), out, "close_to:wrong");
+        if kind == 0 {
+            // scaled copies (only where scaling by 1 + tol/4 and 1 + 4 tol is exact enough to land on the intended side: normal values)
+            let near = Vector::new(x.iter().map(|v| v * (1.0 + 0.25 * tol)).collect::<Vec<_>>());
+            let k = (0..n).find(|&i| x[i] != 0.0).unwrap();
+            let far = Vector::new(x.iter().enumerate().map(|(i, v)| if i == k { v * (1.0 + 4.0 * tol) } else { *v }).collect::<Vec<_>>());
+            tried += 2;
+            t("close_to(x, x(1+tol/4), tol)", true, catch(|| vx.close_to(&near, tol)), out, "close_to:wrong");
+            t("close_to(x, x with one entry scaled by 1+4tol, tol)", false, catch(|| vx.close_to(&far, tol)), out, "close_to:wrong");
+        }
+        if x.iter().any(|v| v.abs() > f64::EPSILON) { t("x == -x", false, catch(|| vx == neg), out, "eq:opposite-signs-equated"); }
+        t("x == x", true, catch(|| vx == vx.clone()), out, "eq:wrong");
+        t("x == x ++ [1]", false, catch(|| vx == Vector::new(longer.clone())), out, "eq:wrong");
+        let ds = divisors(n);
+        if ds.len() >= 2 { tried += 3;
+            let (r1, r2) = (ds[r.below(ds.len() as u64) as usize], ds[r.below(ds.len() as u64) as usize]);
+            let (m1, m2) = (Matrix::new(x.clone(), r1 as i32, -1), Matrix::new(x.clone(), r2 as i32, -1));
+            let mneg = Matrix::new(neg.v.clone(), r1 as i32, -1);
+            t("Matrix == of the same data in two shapes", r1 == r2, catch(|| m1 == m2), out, "eq:shapes-ignored");
+            t("Matrix close_to of the same data in two shapes", r1 == r2, catch(|| m1.close_to(&m2, tol)), out, "close_to:shapes-ignored");
+            t("Matrix close_to(m, -m, tol)", false, catch(|| m1.close_to(&mneg, tol)), out, "close_to:opposite-signs-equated");
+        }
+        if out.len() > base + 60 { break; }
+    }
+    tried
 }
